@@ -99,5 +99,16 @@ CHECKS['C15'] = {
     'technique': 'path-sensitive record-vs-effect agreement + per-instance state and nondeterminism lints',
 }
 
+CHECKS['C03'] = {
+    'level': 'Symbolic summaries against rule formulas: for each betting query, verifier and mutator the path-sensitive summary (path condition -> returned '
+             'term / raise / writes) is compared clause by clause (S1-S13: call amount, bring-in, minimum / pot / maximum raise-to per structure, the '
+             'refusal rules incl. cap and short all-in, range check, fold rule per mode, effects of a raise, round set-up and end, effective stack) with '
+             'formulas written from the rules and pushed through the same normaliser.',
+    'note': 'Decides each clause for all states and amounts at once, modulo the normaliser (AC, comparison orientation, linear arithmetic, negation). '
+            'Does NOT decide that the clauses together admit exactly the legal histories (a statement about sequences); clockwise order is decided only '
+            'as "deque rotated by the opener, popped from the left".',
+    'technique': 'path-sensitive symbolic summaries compared with spec formulas through one term normaliser',
+}
+
 ALL = [f'C{i:02d}' for i in range(1, 21)]
 NOT_APPLICABLE = {p: PENDING for p in ALL if p not in CHECKS}
